@@ -100,6 +100,7 @@ type ProxyPlan struct {
 	Clients     [][]PReq     `json:"clients"`
 	Pol         zzsim.Policy `json:"pol"`
 	KeepAlive   bool         `json:"upstream_keepalive,omitempty"`
+	DiskLimit   int          `json:"disk_limit,omitempty"` // file backend: no file may grow beyond this many bytes (RLIMIT_FSIZE) during the run
 }
 
 // OLog is one request as the origin saw it, and what it answered.
@@ -939,6 +940,15 @@ func runProxyPlan(t *testing.T, planAny any, ctl Ctl) *Result {
 		go orSrv.Serve(w.orLn)
 		s.Unexempt()
 
+		if p.DiskLimit > 0 && p.Backend == "file" {
+			restore := setFsizeLimit(uint64(p.DiskLimit))
+			defer restore()
+			for _, r := range p.Res {
+				if r.Size > p.DiskLimit {
+					res.Faults["disk_short_write"]++
+				}
+			}
+		}
 		var names []string
 		for ci := range p.Clients {
 			ci := ci
